@@ -40,7 +40,8 @@ var c15Extras = [][][2]string{nil, {{"page", "2"}}, {{"page", "2"}, {"q", "a b&c
 type c15Case struct {
 	Kind     string   `json:"kind"` // build | naming
 	Template string   `json:"template,omitempty"`
-	Style    string   `json:"style,omitempty"` // map | pairs | builder
+	Style    string   `json:"style,omitempty"`      // map | pairs | builder | builder-reused
+	Reg      string   `json:"registered,omitempty"` // "" top-level AddNamed | group: NewNamedRoute, ToURL() once, AddRoute inside Group("/api") | controller
 	Ops      []string `json:"naming_ops,omitempty"`
 }
 
@@ -48,8 +49,13 @@ var c15VarRe = regexp.MustCompile(`\{([a-z0-9]+)(?::([^/]+))?\}`)
 
 func c15Gen(tier string, emit func(c15Case)) {
 	for _, t := range c15Templates {
-		for _, st := range []string{"map", "pairs", "builder"} {
+		for _, st := range []string{"map", "pairs", "builder", "builder-reused"} {
 			emit(c15Case{Kind: "build", Template: t, Style: st})
+		}
+		// the same route registered inside a group (after its URL template was already asked for once), and named afterwards
+		for _, st := range []string{"map", "builder"} {
+			emit(c15Case{Kind: "build", Template: t, Style: st, Reg: "group"})
+			emit(c15Case{Kind: "build", Template: t, Style: st, Reg: "named-later"})
 		}
 	}
 	// naming: all sequences of <= 3 operations over 2 names x 3 APIs
@@ -163,13 +169,28 @@ func c15Run(c c15Case, st *fw.Stats) []fw.Viol {
 	var seenIdx int = -1
 	var seenParams map[string]string
 	r := rux.New()
-	r.AddNamed("target", c.Template, func(ctx *rux.Context) {
+	th := func(ctx *rux.Context) {
 		seenIdx = 0
 		seenParams = map[string]string{}
 		for k, v := range ctx.Params {
 			seenParams[k] = v
 		}
-	}, "GET")
+	}
+	prefix := ""
+	switch c.Reg {
+	case "group":
+		prefix = "/api"
+		rt := rux.NewNamedRoute("target", c.Template, th, "GET")
+		_ = try(func() { rt.ToURL() }) // asking an unattached route for its URL must not freeze a stale template
+		r.Group("/api", func() { r.AddRoute(rt) })
+	case "named-later":
+		r.GET(c.Template, th).NamedTo("target", r)
+	default:
+		r.AddNamed("target", c.Template, th, "GET")
+	}
+	// another named route, used to check that a builder object can be reused across routes
+	r.AddNamed("other", "/other/{o}", func(ctx *rux.Context) { seenIdx = 2 }, "GET")
+	shared := rux.NewBuildRequestURL()
 	// decoys that must not capture the built URL
 	r.GET("/zz/{x}", func(ctx *rux.Context) { seenIdx = 1 })
 	target := r.GetRoute("target")
@@ -187,7 +208,7 @@ func c15Run(c c15Case, st *fw.Stats) []fw.Viol {
 		}
 		// the path the values spell out; tuples whose path is not in normal form (white space or '/' at its
 		// end) are outside the round trip: C11 says lookups ignore those characters
-		spelled := c.Template
+		spelled := prefix + c.Template
 		for k, m := range vars {
 			spelled = strings.Replace(spelled, m[0], vals[k], 1)
 		}
@@ -224,8 +245,13 @@ func c15Run(c c15Case, st *fw.Stats) []fw.Viol {
 					}
 				case "pairs":
 					u = r.BuildURL("target", args...)
-				case "builder":
+				case "builder", "builder-reused":
 					b := rux.NewBuildRequestURL()
+					if c.Style == "builder-reused" {
+						// one builder object serves several BuildURL calls, for different routes
+						b = shared
+						r.BuildRequestURL("other", b.Params(rux.M{"{o}": "1"}).Queries(url.Values{}))
+					}
 					pm := rux.M{}
 					q := url.Values{}
 					for k, d := range defs {
@@ -298,7 +324,7 @@ func c15Run(c c15Case, st *fw.Stats) []fw.Viol {
 var c15Spec = fw.Spec[c15Case]{
 	ID:    "C15",
 	Level: "model_checking",
-	Rule: "complete product: 14 named templates (static, default / custom / global variable regexes, 1-3 variables, literal prefix and suffix around a variable, '.' in the literal text) x ALL value tuples over 19 values (spaces, non-ASCII, %, ?, #, ;, encoded slash, dots, slash where the regex admits it) that satisfy the variables' regexes x 3 argument styles (M map, key/value pairs, BuildRequestURL builder) x 4 sets of extra query arguments; " +
+	Rule: "complete product: 14 named templates (static, default / custom / global variable regexes, 1-3 variables, literal prefix and suffix around a variable, '.' in the literal text) x ALL value tuples over 19 values (spaces, non-ASCII, %, ?, #, ;, encoded slash, dots, slash where the regex admits it) that satisfy the variables' regexes x 4 argument styles (M map, key/value pairs, BuildRequestURL builder, one builder object reused across routes) x 3 registrations (top-level AddNamed; NewNamedRoute + ToURL() + AddRoute inside a group; named after registration with NamedTo) x 4 sets of extra query arguments; " +
 		"each built URL is matched (Match on u.Path) and requested (ServeHTTP on a request parsed from u.String()); naming: all sequences of <=3 (thorough 4) naming operations over 2 names x {AddNamed, NewNamedRoute+AddRoute, route.NamedTo on a new route, NamedTo renaming the first / the previous route}; non-trivial = a template with variables / a sequence of >=2 naming operations",
 	Assume: []string{"values containing '{' or '}' are excluded: Build substitutes in Go map order, which the harness cannot own", "routes without optional parts, as the statement says", "value tuples that spell a path which is not in normal form (white space or '/' at the very end) are skipped: path normalisation (C11) ignores those characters by design"},
 	Bounds: func(tier string) map[string]any {
